@@ -192,6 +192,32 @@ impl<K: Ord + Copy, V> OrdMap<K, V> {
     pub fn values(&self) -> Values<'_, K, V> {
         Values { m: self, i: 0 }
     }
+    pub fn range<R: std::ops::RangeBounds<K>>(&self, r: R) -> std::vec::IntoIter<(&K, &V)> {
+        let mut v = Vec::new();
+        let mut i = 0;
+        while i < ORD_CAP {
+            if let Some((k, val)) = &self.items[i] {
+                if r.contains(k) {
+                    v.push((k, val));
+                }
+            }
+            i += 1;
+        }
+        v.into_iter()
+    }
+    pub fn get(&self, k: &K) -> Option<&V> {
+        let mut i = 0;
+        let mut r = None;
+        while i < ORD_CAP {
+            if let Some((kk, v)) = &self.items[i] {
+                if *kk == *k {
+                    r = Some(v);
+                }
+            }
+            i += 1;
+        }
+        r
+    }
     pub fn contains_key(&self, k: &K) -> bool {
         let mut i = 0;
         let mut f = false;
@@ -265,17 +291,26 @@ extern "C" fn prev_three(sig: c_int, info: *mut siginfo_t, ctx: *mut c_void) {
 #[kani::proof]
 fn c04_prev_execute() {
     let mut sa: libc::sigaction = unsafe { std::mem::zeroed() };
+    // the handler word: SIG_DFL, SIG_IGN, 0, or a real function; sa_flags is ANY word the kernel may
+    // hand back (it keeps the flags verbatim, so SIG_IGN / SIG_DFL may well carry SA_SIGINFO)
     let kind: u8 = kani::any();
-    kani::assume(kind < 5);
+    kani::assume(kind < 4);
+    let flags: c_int = kani::any();
+    let siginfo = flags & libc::SA_SIGINFO != 0;
     sa.sa_sigaction = match kind {
         0 => libc::SIG_DFL,
         1 => libc::SIG_IGN,
         2 => 0,
-        3 => prev_one as usize,
-        _ => prev_three as usize,
+        _ => {
+            if siginfo {
+                prev_three as usize
+            } else {
+                prev_one as usize
+            }
+        }
     };
-    let other_flags: c_int = kani::any();
-    sa.sa_flags = if kind == 4 { other_flags | libc::SA_SIGINFO } else { other_flags & !libc::SA_SIGINFO };
+    sa.sa_flags = flags;
+    let kind = if kind == 3 { if siginfo { 4 } else { 3 } } else { kind };
     let registered_for: c_int = kani::any();
     let p = Prev { signal: registered_for, info: sa };
     let sig: c_int = kani::any();
@@ -570,6 +605,8 @@ fn c05_op_unregister_small() {
     unsafe { op_unregister(arbitrary_state_shape(1, 1, true)) }
 }
 unsafe fn op_unregister(st: St) {
+    lm::link();
+    lm::reset();
     {
         let s: c_int = kani::any();
         let x: u128 = kani::any();
@@ -585,6 +622,7 @@ unsafe fn op_unregister(st: St) {
         assert!(has(st.a, st.ida[0]) == (st.na >= 1 && !(s == st.a && x == st.ida[0])), "C05.REMOVE-ONLY-IT: every other action of the same signal stays");
         assert!(has(st.a, st.ida[1]) == (st.na >= 2 && !(s == st.a && x == st.ida[1])), "C05.REMOVE-ONLY-IT: every other action of the same signal stays");
         assert!(has(st.b, st.idb) == (st.nb >= 1 && !(s == st.b && x == st.idb)), "C05.REMOVE-ONLY-IT: actions of other signals stay");
+        assert!(lm::tlen() == 0, "C05.INSTALL-ONCE: removing an action never touches the process's signal dispositions (the library's handler stays installed, also with zero actions left)");
         assert!(quiescent(), "C18.MUTATOR-RELEASES: the mutator returns with every lock released and no reader section open");
         kani::cover!(live && s == st.a && x == st.ida[0], "C05.cover: remove the oldest action of a signal");
         kani::cover!(!live && s == st.a, "C05.cover: stale id on a known signal");
@@ -592,6 +630,8 @@ unsafe fn op_unregister(st: St) {
 }
 
 unsafe fn op_unregister_signal(st: St) {
+    lm::link();
+    lm::reset();
     let s: c_int = kani::any();
     let had = (s == st.a && st.na >= 1) || (s == st.b && st.nb >= 1);
     #[allow(deprecated)]
@@ -603,6 +643,7 @@ unsafe fn op_unregister_signal(st: St) {
     assert!(cur.next_id == st.next, "C05.ID-FRESH: removal never gives an id back (next_id unchanged)");
     assert!(view(st.a) == (true, if s == st.a { 0 } else { st.na }) && view(st.b) == (true, if s == st.b { 0 } else { st.nb }), "C05.UNREG-SIGNAL: all actions of that signal and only those are removed; slots are never removed");
     assert!(has(st.b, st.idb) == (st.nb >= 1 && s != st.b) && has(st.a, st.ida[0]) == (st.na >= 1 && s != st.a), "C05.REMOVE-ONLY-IT: actions of other signals stay");
+    assert!(lm::tlen() == 0, "C05.INSTALL-ONCE: removing the actions of a signal never touches the process's signal dispositions (the library's handler stays installed with zero actions left)");
     assert!(quiescent(), "C18.MUTATOR-RELEASES: the mutator returns with every lock released and no reader section open");
     kani::cover!(had && s == st.a, "C05.cover: all actions of a signal removed at once");
 }
@@ -674,6 +715,7 @@ fn at_sigaction(sig: c_int, act_set: bool) {
             INSTALL_SEEN = true;
             assert!(sig == NEW_SIG, "C05.INSTALL-ONCE: the handler is installed for the signal being registered");
             assert!(hc::STORE_CALLS == 1 && hc::STORE_ON[0] == hc::addr(&g.race_fallback), "C04.REG-ORDER: the fallback was published before the library's handler became the disposition");
+            assert!(hc::OUTER_HELD_AT_STORE[0], "C04.FALLBACK-UNDER-DATA-LOCK: the fallback is published while the registry's data lock is held, so no concurrent first registration of another signal can overwrite it before this signal's slot is published");
             let fb = hc::current(&g.race_fallback);
             assert!(match fb { Some(p) => p.signal == sig && p.info.sa_sigaction == lm::OLD_HANDLER, None => false }, "C04.REG-ORDER: and it holds this signal's previous disposition");
             assert!(!hc::mutex_free(&g.data) && hc::mutex_free(&g.race_fallback), "C18.LOCK-ORDER: the fallback lock is taken and released inside the data lock, which is still held while the handler is switched");
@@ -704,6 +746,7 @@ fn c04_op_register_vacant() {
         kani::assume(c != st.a && !FORBIDDEN.contains(&c));
         setup_old(4);
         NEW_SIG = c;
+        hc::set_outer(&GlobalData::get().data);
         lm::ON_SIGACTION_DONE = Some(at_sigaction);
         lm::reset();
         let r = register_sigaction(c, act(9));
@@ -751,6 +794,7 @@ pub fn delivery_wait_stub() {
 #[kani::stub(std::thread::yield_now, delivery_wait_stub)]
 #[kani::stub(core::sync::atomic::spin_loop_hint, delivery_wait_stub)]
 #[kani::stub(core::hint::spin_loop, delivery_wait_stub)]
+#[kani::stub(core::sync::atomic::Atomic::<usize>::fetch_add, half_lock::verif_contract::fetch_add_counting)]
 fn c02_op_handler() {
     lm::link();
     unsafe {
@@ -768,7 +812,9 @@ fn c02_op_handler() {
             hc::store_contract(&mut w, Some(Prev { signal: fb_sig, info: sa }));
         }
         let sig: c_int = kani::any();
+        hc::READER_INCS = 0;
         deliver(sig);
+        assert!(hc::READER_INCS == 2, "C02.ONE-SNAPSHOT: a delivery opens exactly one reader section on the fallback and exactly one on the registry snapshot - every action it runs comes from that one snapshot");
         if sig == st.a {
             assert!(LOGN >= 1 && LOG[0] == PREV3 && PREV_SIG == sig, "C04.FIRST: the handler that was installed before the library took the signal over runs first, exactly once - also when no action is left");
             assert!(log_is(if st.na == 0 { &[PREV3] } else if st.na == 1 { &[PREV3, 1] } else { &[PREV3, 1, 2] }), "C02.ORDER: a delivery runs exactly the actions of its signal in the one snapshot it read, each once, in id (= registration) order");
